@@ -106,6 +106,8 @@ type Exec struct {
 	stats       *Stats
 	concreteMode bool
 	initRunning  *ssa.Package
+	speculating  bool
+	merges       int
 }
 
 type RunConfig struct {
@@ -126,6 +128,7 @@ type RunConfig struct {
 	MustFail     bool // must-fail twin: a violation is the expected outcome
 	Prefix       []int64
 	AllowBlocked bool
+	NoMerge      bool
 	MaxSchedPoints int
 }
 
@@ -281,6 +284,9 @@ func (e *Exec) branch(c *Term) bool {
 	if c.IsConst() {
 		return c.IsTrue()
 	}
+	if e.speculating {
+		panic(specAbort{})
+	}
 	if e.summaryDepth > 0 {
 		return e.localBranch(c)
 	}
@@ -336,6 +342,9 @@ func (e *Exec) choose(n int, what string) int {
 	if n <= 1 {
 		return 0
 	}
+	if e.speculating {
+		panic(specAbort{})
+	}
 	if e.summaryDepth > 0 {
 		panic(summaryAbort{"choice in summary: " + what})
 	}
@@ -361,6 +370,9 @@ func (e *Exec) choose(n int, what string) int {
 func (e *Exec) concretize(t *Term, what string) int64 {
 	if t.IsConst() {
 		return t.ConstS()
+	}
+	if e.speculating {
+		panic(specAbort{})
 	}
 	if e.summaryDepth > 0 {
 		panic(summaryAbort{"concretisation in summary: " + what})
@@ -567,12 +579,15 @@ func (e *Exec) trySummary(caller *frame, callpos token.Pos, fn *ssa.Function, ar
 		e.localConds = nil
 		var v Value
 		failed := false
+		panicked := false
 		func() {
 			defer func() {
 				if r := recover(); r != nil {
 					switch r.(type) {
-					case summaryAbort, goPanic:
+					case summaryAbort:
 						failed = true
+					case goPanic:
+						panicked = true
 					default:
 						panic(r)
 					}
@@ -580,9 +595,33 @@ func (e *Exec) trySummary(caller *frame, callpos token.Pos, fn *ssa.Function, ar
 			}()
 			v = e.runFunction(caller, callpos, fn, args, env)
 		}()
+		if panicked {
+			// a panicking local path kills the summary only if it is feasible under the path condition
+			cond := e.tt.And(e.localConds...)
+			conds, decs, pre2 := e.localConds, e.localDecisions, e.localPrefix
+			e.summaryDepth = 0
+			r := "sat"
+			if saved.depth == 0 {
+				r, _ = e.checkSat(cond, nil)
+			}
+			e.summaryDepth = saved.depth + 1
+			e.localConds, e.localDecisions, e.localPrefix = conds, decs, pre2
+			if r != "unsat" {
+				failed = true
+			}
+		}
 		if failed {
 			e.summariesFail++
 			return nil, false
+		}
+		if panicked {
+			for i := len(pre); i < len(e.localDecisions); i++ {
+				if e.localDecisions[i] == 0 {
+					alt := append(append([]int{}, e.localDecisions[:i]...), 1)
+					stack = append(stack, alt)
+				}
+			}
+			continue
 		}
 		// alternatives discovered beyond the prefix
 		for i := len(pre); i < len(e.localDecisions); i++ {
